@@ -63,7 +63,7 @@ fn pick_texts(rng: &mut Rng, hostile_pct: u64) -> (Vec<String>, Vec<&'static str
 }
 
 /// `num[MANTe-SCALE STYLE]` -> value-only form; returns the numbers in order.
-fn normalise(dump: &str) -> (String, Vec<(i128, u32)>) {
+pub fn normalise(dump: &str) -> (String, Vec<(i128, u32)>) {
     let mut out = String::new();
     let mut nums = Vec::new();
     let mut rest = dump;
